@@ -39,7 +39,12 @@ FUNCTIONS = (['pymeeus/%s.py:%s.geocentric_position' % (p, p) for p in PLANETS]
 MANIFEST = dict(
     text=("PARTIAL. Lean 4 theorems (Props/C09.lean) about the real-number model of the geocentric reductions "
           "(templates/Geocentric.lean): the elongation is acos of an argument in [-1, 1] and lies in [0, 180] degrees "
-          "(planets and minor bodies); Pluto raises ValueError exactly when the year is outside [1885, 2099], in either "
+          "(planets and minor bodies); right ascension in [0, 360) and declination in [-90, 90] for the planets and "
+          "for ecliptical2equatorial; the FK5 correction inside geocentric_position is the same formula as in "
+          "geometric_vsop_pos (latitude in radians); the parabolic branch returns v = 2 atan(s) in degrees within "
+          "(-180, 180) and r = q (1 + s^2); the bisection of kepler_equation ends within the fuel of the model for every "
+          "input, kepler_equation is total for 0 <= e < 1 and raises ValueError for e >= 1, so the elliptic regime of "
+          "Minor is always defined; Pluto's right ascension / declination ranges and table shapes; Pluto raises ValueError exactly when the year is outside [1885, 2099], in either "
           "pass; the three orbit regimes of Minor partition e in [0, 1] as documented (e < 0.98, |e - 1| < 1e-10, "
           "otherwise) and both light-time passes use the same regime; light-time structure: the second position is "
           "evaluated at Epoch(epoch - 0.0057755183 Delta) with Delta the first-pass distance, the Earth at the "
